@@ -34,9 +34,9 @@ import (
 	"github.com/tink-crypto/tink-go/v2/verifharness/internal/detrand"
 	"github.com/tink-crypto/tink-go/v2/verifharness/internal/evid"
 	"github.com/tink-crypto/tink-go/v2/verifharness/internal/gen"
-	"github.com/tink-crypto/tink-go/v2/verifharness/internal/legacykm"
 	"github.com/tink-crypto/tink-go/v2/verifharness/internal/keys"
 	"github.com/tink-crypto/tink-go/v2/verifharness/internal/kf"
+	"github.com/tink-crypto/tink-go/v2/verifharness/internal/legacykm"
 	"github.com/tink-crypto/tink-go/v2/verifharness/internal/tk"
 )
 
